@@ -103,8 +103,10 @@ func s1Shape14(c *vcore.Ctx) *s1Shape {
 	return sh
 }
 
+var c11S1, c12S1 *vcore.Prop
+
 func init() {
-	register(&vcore.Prop{
+	c11S1 = (&vcore.Prop{
 		ID: "C11", Level: "exploration", Worlds: "S1",
 		Rule:        "one run = 1..4 operations (mostly Execve of a program that exits at a simulator-chosen step or never) in one synctest bubble; the context is cancelled, or Destroy is called from another goroutine, at a simulator-chosen event boundary of the call (before the request leaves, while it is queued, during sync, while the program runs, after it exited, while the result is queued). distinct = hash of ordered event kinds; non-trivial = a cancel/Destroy/non-FIFO decision fired",
 		Components:  s1Components,
@@ -114,7 +116,7 @@ func init() {
 		Init:        s1Init, StallLimit: 20 * time.Second, OnStall: s1Stall("C11"),
 		Run: func(c *vcore.Ctx) *vcore.Violation { return s1RunHistory(c, s1Shape11(c)) },
 	})
-	register(&vcore.Prop{
+	c12S1 = (&vcore.Prop{
 		ID: "C12", Level: "exploration", Worlds: "S1",
 		Rule:        "one run = a history of 1..30 environment operations (successes, every launch-failure stage, cancellations, transport faults, Destroy in flight) followed by Destroy, in one synctest bubble; descriptors in transit carry unique numbers so that after the run every descriptor either side received must be closed or handed to the caller; every goroutine of the host-side environment must have ended. distinct = hash of ordered event kinds; non-trivial = a fault or non-FIFO decision fired",
 		Components:  s1Components,
